@@ -44,7 +44,7 @@ func main() {
 		Assumptions: []string{
 			"time conditions are certain: the clock only moves by 1ns ticks per read, +1ns or +31ms steps, MaxDuration is 30ms",
 		},
-		QuickBudget:    150 * time.Second,
+		QuickBudget:    300 * time.Second,
 		ThoroughBudget: 45 * time.Minute,
 	})
 }
